@@ -15,9 +15,9 @@ CLAIM = ("Grammars are built as a clean-by-construction base plus at most one pl
          "compared with the library's on every case. Proved for the model, for every grammar and shell (Props/C08.lean): "
          "rejects_no_variant, rejects_varying_names, rejects_slash_name, rejects_duplicate_plain, rejects_unknown_shell, "
          "rejects_non_command_spec, rejects_duplicate_target_spec, rejects_cycle with its converse cycle_verdict_real (a grammar with this mistake and none of the earlier-checked ones "
-         "gets this class) and error_is_final (a validation error is the verdict of the whole pipeline, for every schedule).")
-NOTE = ("Open: the theorems for the classes decided later in the pipeline (cycle, spaces inside a word, non-tail placeholder, "
-        "conflicting descriptions) and accepts_clean; for these the level is translation validation over generated cases. Trusted: the planted-mistake generator (the class it plants is the oracle), vh, translate.py label extraction.")
+         "gets this class) and error_is_final (a validation error is the verdict of the whole pipeline, for every schedule). Complete characterisation of the verdict of validation (Proofs/Verdict.lean): no_false_diagnostics — each of the eight verdicts is only given when the mistake it names is present; verdict_classes — there are no others; clean_grammars_pass with its converse accepted_is_clean — a grammar is accepted exactly when it has none of the mistakes (incl. one the proof uncovered: a plain definition of a name that is also defined for the target shell must itself be an external command — shadowed_plain_must_be_command, confirmed on the real binary); verdict_decision_list / verdict_exhaustive — the outcome as a decision list in the order the code runs its checks, covering every grammar.")
+NOTE = ("Open: a syntactic characterisation of 'spaces inside a word' (the theorems use the model's own check as the predicate) and the classes decided after validation (non-tail placeholder, "
+        "conflicting descriptions, ambiguity); for these the level is translation validation over generated cases. Trusted: the planted-mistake generator (the class it plants is the oracle), vh, translate.py label extraction.")
 TECHNIQUE = "planted-mistake oracle on the real library and binary + correspondence with the Lean model's verdict + Lean-checked label table"
 DESIGN_REF = "§3 C08"
 
